@@ -327,7 +327,7 @@ pub fn gen(thorough: bool, rng: &mut Rng, out: &mut Vec<String>) {
                 let to = if i % 9 == 4 && rng.chance(1, 3) { perm[rng.range(k as i64, n as i64 - 1) as usize] } else { perm[rng.below(k as u64) as usize] }; // sometimes forward/self: cycles
                 let sd = SIDES[rng.below(4) as usize];
                 let al = if i % 13 == 5 { SIDES[rng.below(4) as usize] } else { let o: Vec<&str> = SIDES.iter().cloned().filter(|a| horiz(a) != horiz(sd)).collect(); o[rng.below(2) as usize] };
-                let sp = match rng.below(4) { 0 => "none".to_string(), 1 => format!("(pp {} {})", if horiz(sd) { "h" } else { "v" }, rng.range(0, 9)), 2 => format!("(sizeof {})", rng.below(4)), _ => "none".to_string() };
+                let sp = match rng.below(4) { 0 => "none".to_string(), 1 => format!("(pp {} {})", if horiz(sd) { "h" } else { "v" }, rng.range(-4, 9)), 2 => format!("(sizeof {})", rng.below(4)), _ => "none".to_string() };
                 format!("(rel {} {} {} {})", to, sd, al, sp)
             };
             specs[me] = format!("({} {} {} {})", rng.below(4), loc, rh, rv);
